@@ -58,7 +58,10 @@ Dropped == Len(hist) > 0 /\ hist[Len(hist)].name = "filter_by_length" /\ FilterD
 Enabled(o, T) ==
   ~Dropped /\
   CASE o.name = "boyd_split" -> HeadsMarked(T) /\ OneHead(T)
-    [] o.name = "raising" -> \A x \in T.nodes : x.a.split \in {"T", "F"}
+    \* (collapsing between boyd_split and raising merges block nodes into tokens: then raising would
+    \*  remove tokens - found by TLC -simulate; such sequences do not respect raising's prerequisite)
+    [] o.name = "raising" -> /\ \A x \in T.nodes : x.a.split \in {"T", "F"}
+                             /\ \A x \in TNodes(T) : x.a.split = "F"
     [] o.name \in {"punctuation_verylow", "punctuation_symetrify"} -> Did("root_attach")
     [] o.name = "binarize" -> BinarizeEnabled(T)
     [] o.name = "collapse_unary_chains" -> T.n > 1
